@@ -29,3 +29,54 @@ pub async fn json_load(config: &Config) -> Result<Worterbuch, String> {
 pub async fn apply_all_grave_goods_and_last_wills(worterbuch: &mut Worterbuch) {
     worterbuch.apply_all_grave_goods_and_last_wills().await
 }
+
+// ---------------------------------------------------------------------------
+// file-system step tracing for the JSON persistence (crash-point enumeration)
+
+use std::sync::Mutex;
+
+static FS_TRACE: Mutex<Option<(Vec<String>, Option<usize>)>> = Mutex::new(None);
+
+/// Start recording file-system steps; with `crash_after = Some(k)` the k-th step
+/// panics right after it completed (the process "dies" there, the files stay as they are).
+pub fn fs_trace_begin(crash_after: Option<usize>) {
+    *FS_TRACE.lock().unwrap_or_else(|e| e.into_inner()) = Some((Vec::new(), crash_after));
+}
+
+/// Stop recording and return the steps taken.
+pub fn fs_trace_end() -> Vec<String> {
+    FS_TRACE
+        .lock()
+        .unwrap_or_else(|e| e.into_inner())
+        .take()
+        .map(|(steps, _)| steps)
+        .unwrap_or_default()
+}
+
+/// Called by the persistence code after each completed file-system step.
+pub fn fs_step(name: impl AsRef<str>) {
+    let crash = {
+        let mut guard = FS_TRACE.lock().unwrap_or_else(|e| e.into_inner());
+        match guard.as_mut() {
+            Some((steps, crash_after)) => {
+                steps.push(name.as_ref().to_owned());
+                crash_after.is_some_and(|k| steps.len() >= k)
+            }
+            None => false,
+        }
+    };
+    if crash {
+        panic!("verif: simulated process crash after file-system step");
+    }
+}
+
+/// `store.a.json` -> ("store", "a"), `gglw.b.json.sha256` -> ("gglwSha", "b")
+pub fn fs_file_label(path: &std::path::Path) -> (String, String) {
+    let name = path.file_name().map(|n| n.to_string_lossy().to_string()).unwrap_or_default();
+    let name = name.trim_end_matches(".tmp");
+    let sha = name.ends_with(".sha256");
+    let mut parts = name.split('.');
+    let base = parts.next().unwrap_or("").to_owned();
+    let slot = parts.next().unwrap_or("").to_owned();
+    (if sha { format!("{base}Sha") } else { base }, slot)
+}
